@@ -46,7 +46,7 @@ func VerifC03Cache() {
 			_, h, err := t.Commit(vCtx, vNs, version)
 			symx.Assert(err == nil, "Commit failed")
 			symx.Assert(h == vCanonicalRoot(ref), "committed root differs from the root of a fresh tree with the same contents")
-			if symx.Cfg("reopen", 0) == 1 && symx.Bool(symx.N("reopen", i)) {
+			if r := symx.Cfg("reopen", 0); r == 2 || (r == 1 && symx.Bool(symx.N("reopen", i))) { // reopen=2: always
 				t.Close()
 				t = NewWithRoot(nil, d, node.Root{Namespace: vNs, Version: version, Type: node.RootTypeState, Hash: h}, Capacity(capn, capv))
 				symx.Cover("reopened")
